@@ -208,6 +208,10 @@ incrementally maintained size handed to the constructor).  `Frag.WF f` : the sto
 Every statement is about the token sequence (`ftoks`) and the stored size, so both a wrong join and a stale cache
 contradict it.  Tied exactly by harness/props/c02_frag.py. -/
 
+/-- the hypotheses used below are decidable and met by ordinary fragments: a right cache, normal-form content -/
+example : (⟨[.text [97, 98] [], .leaf 0 [] []], 3⟩ : Frag).WF ∧
+    fnorm [.text [97, 98] [], .leaf 0 [] []] = true ∧ ¬ (⟨[.leaf 0 [] []], 0⟩ : Frag).WF := by decide
+
 /-- **`from_array` as written is the fold of `add_node`**: it never reaches its assertion, its content is the
     list-level `fromArray` every other theorem speaks about, and the size it stores is the sum of the input sizes -/
 theorem fromArray_exact (l : List Node) : Frag.fromArray l = .ok ⟨fromArray l, fsize l⟩ := Frag.fromArray_eq l
@@ -240,26 +244,18 @@ theorem fromArray_idem (l : List Node) (f : Frag) (h : Frag.fromArray l = .ok f)
   cases h
   rw [Frag.fromArray_eq, PM.fromArray_idem, PM.fromArray_size]
 
-/-- a join removes a child, never adds one -/
+/-- **child count = number of inputs − number of joins**, a join being an adjacent pair of same-markup text nodes of
+    the input (`joinFrom none l` counts them, Proofs/FragOps.lean) -/
+theorem fromArray_childCount (l : List Node) :
+    ∃ f, Frag.fromArray l = .ok f ∧ f.childCount + joinFrom none l = l.length :=
+  ⟨_, Frag.fromArray_eq l, fromArray_length l⟩
+
+/-- … so a join removes a child, never adds one -/
 theorem fromArray_childCount_le (l : List Node) : ∃ f, Frag.fromArray l = .ok f ∧ f.childCount ≤ l.length := by
-  refine ⟨_, Frag.fromArray_eq l, ?_⟩
-  show (PM.fromArray l).length ≤ l.length
-  have key : ∀ (cs t : List Node), (addNodes t cs).length ≤ t.length + cs.length := by
-    intro cs
-    induction cs with
-    | nil => intro t; simp [addNodes]
-    | cons c cs ih =>
-      intro t
-      simp only [addNodes, List.foldl_cons] at ih ⊢
-      have h1 := ih (addNode t c)
-      have h2 : (addNode t c).length ≤ t.length + 1 := by
-        by_cases hj : ∃ s m, c = .text s m ∧ lastKey t = some m
-        · obtain ⟨s, m, rfl, hk⟩ := hj
-          obtain ⟨ls, hl, ha⟩ := addNode_join t s m hk
-          rw [ha]; simp
-        · rw [addNode_nojoin t c hj]; simp
-      simp only [List.length_cons]; omega
-  simpa [PM.fromArray] using key l []
+  obtain ⟨f, h1, h2⟩ := fromArray_childCount l
+  exact ⟨f, h1, by omega⟩
+
+example : joinFrom none [.text [97] [], .text [98] [], .leaf 0 [] [], .text [99] [], .text [100] [⟨1, []⟩]] = 1 := by rfl
 
 /-- `Fragment.from_`: `None` and the empty list give the empty fragment, a fragment is returned as it is, a list goes
     through `from_array`, a single node becomes a one-child fragment; the cache of the result is right (given that of
